@@ -57,3 +57,21 @@ pub fn leaf_f64<S: Src>(s: &mut S) {
     let ver = s.u32();
     codec_contract(&v, ver, |a, b| a.to_bits() == b.to_bits());
 }
+
+// ---- net / time leaves: all values -------------------------------------------------------------------------------
+pub fn leaf_ipaddr<S: Src>(s: &mut S) {
+    let v = if s.bool() { std::net::IpAddr::V4(std::net::Ipv4Addr::from(s.bytes::<4>())) } else { std::net::IpAddr::V6(std::net::Ipv6Addr::from(s.bytes::<16>())) };
+    codec_contract(&v, 0, |a, b| a == b);
+}
+pub fn leaf_socketaddr<S: Src>(s: &mut S) {
+    let port = s.u16();
+    let v = if s.bool() {
+        std::net::SocketAddr::V4(std::net::SocketAddrV4::new(std::net::Ipv4Addr::from(s.bytes::<4>()), port))
+    } else {
+        std::net::SocketAddr::V6(std::net::SocketAddrV6::new(std::net::Ipv6Addr::from(s.bytes::<16>()), port, s.u32(), s.u32()))
+    };
+    codec_contract(&v, 0, |a, b| a == b);
+}
+// (Duration and SystemTime are not harnessed here: the 128-bit division/modulo by 10^9 in their codecs makes CBMC run
+//  out of time (> 15 min); they are covered only by the bounded native harness nrt_library and by mal_duration /
+//  mal_systemtime for panic freedom.)
